@@ -584,7 +584,8 @@ Print Assumptions tree_clades_laminar.
    earlier encodings returned to the caller (ot_saved, oldest first).  obj_encode su cb ss mut is
    encode_bipartitions / update_bipartitions with its four keywords transcribed as to which object is created,
    bound to an edge, written in place and returned; obj_edit is any operation that changes structure and
-   rooting and is not asked to update the bipartitions; obj_step runs one of them.
+   rooting and is not asked to update the bipartitions; obj_supp is suppress_unifurcations(update_bipartitions=True)
+   (wave 8, see the end of this file); obj_step runs one of them.
    owf s: every cell referred to by an edge, by the stored list or by a saved list, and every allocated cell,
    is below the allocation counter (holds of the initial state and is preserved: owf_init / owf_step).   *)
 From DV Require Import Model.C01GenPrims Model.C01ObjModel Proofs.C01Obj.
@@ -660,3 +661,63 @@ Theorem recycling_variant_refuted :
             map (deref (ot_heap s2)) l <> map (deref (ot_heap s1)) l.
 Proof. exact recycling_variant_refuted_l. Qed.
 Print Assumptions recycling_variant_refuted.
+
+(* ---------------------------------------------------------------------------------------------- *)
+(* Object level (wave 8): Tree.suppress_unifurcations(update_bipartitions=True) is the one operation that
+   MAINTAINS Tree.bipartition_encoding instead of encoding again (Model/C01ObjModel.v obj_supp, step HSupp of
+   the histories above: object_invariant_holds, saved_encoding_keeps_its_masks and no_bipartition_object_shared
+   quantify over histories that contain it).  It removes from the stored list the objects of the outdegree-one
+   nodes, chosen by IDENTITY (id()).
+   If the edges of the tree, in post-order, are bound to pairwise distinct objects and the stored list is the list
+   of these objects (what an encoding with suppress_unifurcations=False leaves: object_level_refines_value_level),
+   and t is the tree without its outdegree-one nodes, then afterwards the stored list is exactly the list of the
+   objects on the edges of t (one per edge, pairwise distinct, all from the old list); nothing is created,
+   written or rebound, and the lists returned by earlier encodings stay. *)
+From DV Require Import Proofs.C01ObjSupp.
+
+Theorem suppress_unifurcations_maintains_one_object_per_edge : forall t r s cells,
+  NoDup cells ->
+  map (fun n => oh_slot (ot_heap s) (t_id n)) (postorder (ot_tree s)) = map Some cells ->
+  ot_stored s = Some cells ->
+  map t_id (postorder t) = map t_id (filter (fun n => negb (is_unary n)) (postorder (ot_tree s))) ->
+  let s' := obj_supp t r s in
+  exists cells',
+    ot_stored s' = Some cells' /\
+    map (fun n => oh_slot (ot_heap s') (t_id n)) (postorder t) = map Some cells' /\
+    NoDup cells' /\
+    (forall c, In c cells' -> In c cells) /\
+    length cells' = length (postorder t) /\
+    ot_heap s' = ot_heap s /\ ot_saved s' = ot_saved s /\ ot_tree s' = t /\ ot_rooted s' = r.
+Proof. exact supp_one_object_per_edge_l. Qed.
+Print Assumptions suppress_unifurcations_maintains_one_object_per_edge.
+
+(* the hypotheses are satisfiable and the conclusion has content: (((a,b)),c,d) encoded with
+   suppress_unifurcations=False, then suppressed: object 3 (the outdegree-one node's) leaves the list, object 2
+   (the surviving child's, SAME split bitmask 3) stays *)
+Theorem suppress_unifurcations_example :
+  let s1 := obj_encode false true false false (fun x => x) (ot_init (Some true) demo_unary) in
+  let s2 := obj_supp demo_unary_suppressed (Some true) s1 in
+  NoDup [0; 1; 2; 3; 4; 5; 6] /\
+  map (fun n => oh_slot (ot_heap s1) (t_id n)) (postorder (ot_tree s1)) = map Some [0; 1; 2; 3; 4; 5; 6] /\
+  ot_stored s1 = Some [0; 1; 2; 3; 4; 5; 6] /\
+  map t_id (postorder demo_unary_suppressed) = map t_id (filter (fun n => negb (is_unary n)) (postorder (ot_tree s1))) /\
+  ot_stored s2 = Some [0; 1; 2; 4; 5; 6] /\
+  map (fun c => option_map b_split (st_get (oh_store (ot_heap s2)) c)) [2; 3] = [Some (Some 3); Some (Some 3)].
+Proof. exact supp_example. Qed.
+Print Assumptions suppress_unifurcations_example.
+
+(* the statement bites: choosing the objects to drop by Bipartition.__eq__/__hash__ (the split bitmask) instead
+   of by identity (seeded change C01-9) satisfies the hypotheses and violates the conclusion on that tree *)
+Theorem suppress_by_value_variant_refuted :
+  let s1 := obj_encode false true false false (fun x => x) (ot_init (Some true) demo_unary) in
+  let s2 := obj_supp_by_value demo_unary_suppressed (Some true) s1 in
+  exists cells cells',
+    NoDup cells /\
+    map (fun n => oh_slot (ot_heap s1) (t_id n)) (postorder (ot_tree s1)) = map Some cells /\
+    ot_stored s1 = Some cells /\
+    map t_id (postorder demo_unary_suppressed) = map t_id (filter (fun n => negb (is_unary n)) (postorder (ot_tree s1))) /\
+    ot_stored s2 = Some cells' /\
+    map (fun n => oh_slot (ot_heap s2) (t_id n)) (postorder demo_unary_suppressed) <> map Some cells' /\
+    length cells' <> length (postorder demo_unary_suppressed).
+Proof. exact by_value_variant_refuted_l. Qed.
+Print Assumptions suppress_by_value_variant_refuted.
